@@ -101,16 +101,38 @@ def _ss(s):
     return ["other", type(s).__name__]
 
 
-def tuple_arity(a):
-    """number of elements `Environment.get_type(arg)` shows `__unroll_arg` after the type-annotation pass"""
-    if isinstance(a, ast.Subscript) and isinstance(a.value, ast.Name):
-        sl = a.slice
-        if a.value.id == "Tuple" and isinstance(sl, ast.Tuple):
-            return len(sl.elts)
-        if a.value.id in ("Qlist", "Qmatrix") and isinstance(sl, ast.Tuple) and len(sl.elts) >= 2 \
-                and isinstance(sl.elts[1], ast.Constant) and type(sl.elts[1].value) is int:
-            return sl.elts[1].value
-    return None
+def expr_rules(fn):
+    """which expression-level rewrites of ast2ast the *source* of a function asks for (evidence only)"""
+    out = set()
+    names_const = set()
+    for node in ast.walk(fn):
+        if isinstance(node, ast.Call) and isinstance(node.func, ast.Name):
+            f = node.func.id
+            if f in ("len", "sum", "min", "max", "any", "all", "ord", "chr", "int", "float", "abs"):
+                out.add("call:" + f)
+                if node.args:
+                    a = node.args[0]
+                    kind = ("tuple-literal" if isinstance(a, ast.Tuple) else "list-literal" if isinstance(a, ast.List)
+                            else "name" if isinstance(a, ast.Name) else "row" if isinstance(a, ast.Subscript)
+                            else "call" if isinstance(a, ast.Call) else "other")
+                    if f in ("len", "sum", "min", "max", "any", "all"):
+                        out.add(f"unroll:{kind}" if len(node.args) == 1 else f"call:{f}:{min(len(node.args), 4)}-args")
+        if isinstance(node, ast.Subscript):
+            sl, v = node.slice, node.value
+            if isinstance(sl, ast.Name):
+                if isinstance(v, ast.Subscript) and isinstance(v.slice, ast.Name):
+                    out.add("subscript:var-var")
+                elif isinstance(v, ast.Name):
+                    out.add("subscript:var")
+                else:
+                    out.add("subscript:var-on-" + type(v).__name__)
+            elif isinstance(sl, ast.Subscript):
+                out.add("subscript:by-subscript")
+        if isinstance(node, ast.For) and isinstance(node.iter, ast.Subscript):
+            out.add("for-row")
+        if isinstance(node, ast.BinOp) and isinstance(node.op, ast.Pow):
+            out.add("pow")
+    return sorted(out)
 
 
 def parse_fn(src):
@@ -127,8 +149,9 @@ def source_request(src):
     fn = parse_fn(src)
     if fn is None:
         return None
-    args = [[a.arg, tuple_arity(a.annotation)] for a in fn.args.args]
-    return dict(op="c01.ast2ast", args=args, body=[ss(s) for s in fn.body])
+    args = [[a.arg, sx(a.annotation) if a.annotation is not None else ["other", "no-annotation"]] for a in fn.args.args]
+    return dict(op="c01.ast2ast", args=args, returns=None if fn.returns is None else sx(fn.returns),
+                body=[ss(s) for s in fn.body], expr_rules=expr_rules(fn))
 
 
 def real_result(ast2ast, src):
@@ -279,3 +302,114 @@ A2A_FORMS = [
     ("expr-stmt", H2 + "\tx + 1\n\treturn x"),
     ("pass", H2 + "\tpass\n\treturn x"),
 ]
+
+
+# ----------------------------------------------------------------------------- expression-level rewrite forms
+# One program per branch of visit_Subscript / create_if_exp / __unroll_arg / visit_Call / ConstantFolder.visit_Call
+# (correspondence only; many are also in the oracle stream of harness/c01.py in other clothes).
+def _expr_forms():
+    out = []
+
+    def add(tag, src):
+        out.append((tag, src))
+
+    elts = [("bool", "bool"), ("Qint[2]", "Qint[2]"), ("Qint2", "Qint[2]"), ("Qint[4]", "Qint[4]"), ("Qchar", "Qchar"),
+            ("Qfixed[1, 2]", "Qfixed[1, 2]")]
+    # variable index into lists / matrices of every shape and element type
+    for n in (1, 2, 3, 4):
+        for et, rt in elts:
+            add(f"qlist-var:{n}:{et}", f"def f(t: Qlist[{et}, {n}], i: Qint[2]) -> {rt}:\n\treturn t[i]")
+    for n in (1, 2, 3):
+        for m in (1, 2, 3):
+            for et, rt in elts[:4]:
+                add(f"qmatrix-var:{n}x{m}:{et}", f"def f(t: Qmatrix[{et}, {n}, {m}], i: Qint[2], j: Qint[2]) -> {rt}:\n\treturn t[i][j]")
+            add(f"qmatrix-row-var:{n}x{m}", f"def f(t: Qmatrix[bool, {n}, {m}], i: Qint[2]) -> bool:\n\treturn t[i][0]")
+            add(f"qmatrix-col-var:{n}x{m}", f"def f(t: Qmatrix[bool, {n}, {m}], j: Qint[2]) -> bool:\n\treturn t[0][j]")
+            for c in range(n):
+                for fn, rt in (("len", "Qint[2]"), ("any", "bool"), ("all", "bool")):
+                    add(f"row-{fn}:{n}x{m}:{c}", f"def f(t: Qmatrix[bool, {n}, {m}]) -> {rt}:\n\treturn {fn}(t[{c}])")
+                for fn in ("sum", "min", "max"):
+                    add(f"row-{fn}:{n}x{m}:{c}", f"def f(t: Qmatrix[Qint[2], {n}, {m}]) -> Qint[4]:\n\treturn {fn}(t[{c}])")
+                add(f"row-for:{n}x{m}:{c}", f"def f(t: Qmatrix[bool, {n}, {m}]) -> Qint[2]:\n\tc = 0\n\tfor x in t[{c}]:\n\t\tc = c + 1 if x else c\n\treturn c")
+            add(f"row-oob:{n}x{m}", f"def f(t: Qmatrix[bool, {n}, {m}]) -> bool:\n\treturn any(t[{n}])")
+            add(f"row-neg:{n}x{m}", f"def f(t: Qmatrix[bool, {n}, {m}]) -> bool:\n\treturn all(t[-1])")
+    # tuples: heterogeneous, nested, ragged rows
+    add("tuple-var", "def f(t: Tuple[Qint[2], Qint[4], Qint[2]], i: Qint[2]) -> Qint[4]:\n\treturn t[i]")
+    add("tuple-var-mixed", "def f(t: Tuple[bool, Qint[2]], i: Qint[2]) -> bool:\n\treturn t[i]")
+    add("tuple-nested-var", "def f(t: Tuple[Tuple[bool, bool, bool], Tuple[bool, bool]], i: Qint[2], j: Qint[2]) -> bool:\n\treturn t[i][j]")
+    add("tuple-ragged-row", "def f(t: Tuple[Tuple[bool, bool, bool], Tuple[bool, bool]]) -> Qint[2]:\n\treturn len(t[0]) + len(t[1])")
+    add("tuple-flat-varvar", "def f(t: Tuple[bool, bool], i: Qint[2], j: Qint[2]) -> bool:\n\treturn t[i][j]")
+    add("tuple-empty", "def f(t: Tuple[()], i: Qint[2]) -> bool:\n\treturn t[i]")
+    add("tuple-single", "def f(t: Tuple[bool], i: Qint[2]) -> bool:\n\treturn t[i]")
+    add("tuple-3d", "def f(t: Qlist[Qlist[Qlist[bool, 2], 2], 2], i: Qint[2], j: Qint[2], k: Qint[2]) -> bool:\n\treturn t[i][j][k]")
+    add("tuple-len-all-any", "def f(t: Tuple[bool, bool, bool]) -> Qint[2]:\n\treturn len(t) if all(t) or any(t) else 0")
+    add("copy-then-index", "def f(t: Qlist[bool, 3], i: Qint[2]) -> bool:\n\tu = t\n\treturn u[i]")
+    add("qint-var-index", "def f(a: Qint[4], i: Qint[2]) -> bool:\n\treturn a[i]")
+    add("bool-var-index", "def f(a: bool, i: Qint[2]) -> bool:\n\treturn a[i]")
+    add("unknown-var-index", "def f(i: Qint[2]) -> bool:\n\treturn zz[i]")
+    add("local-var-index", "def f(a: Qint[2], i: Qint[2]) -> bool:\n\tb = a + 1\n\treturn b[i]")
+    add("local-const-index", "def f(a: Qint[2], i: Qint[2]) -> bool:\n\tb = 3\n\treturn b[i]")
+    # constant tables
+    add("table", "def f(a: Qint[2]) -> Qint[4]:\n\tc = [3, 9, 1, 14]\n\treturn c[a]")
+    add("table-tuple", "def f(a: Qint[2]) -> Qint[4]:\n\tc = (3, 9, 1)\n\treturn c[a] + c[0]")
+    add("table-2d", "def f(a: Qint[2], b: Qint[2]) -> Qint[4]:\n\tc = [[1, 2, 3], [4, 5, 6]]\n\treturn c[a][b]")
+    add("table-2d-ragged", "def f(a: Qint[2], b: Qint[2]) -> Qint[4]:\n\tc = [[1, 2], [4, 5, 6]]\n\treturn c[a][b]")
+    add("table-vars", "def f(a: Qint[2], x: Qint[2], y: Qint[2]) -> Qint[2]:\n\tc = [x, y, x + y]\n\treturn c[a]")
+    add("literal-tuple-index", "def f(a: Qint[2]) -> Qint[4]:\n\treturn (3, 9, 1)[a]")
+    add("literal-list-index", "def f(a: Qint[2]) -> Qint[4]:\n\treturn [3, 9, 1][a]")
+    add("literal-list-const-index", "def f(a: Qint[2]) -> Qint[4]:\n\treturn [3, 9, 1][1] + [3, 9][-1] + a")
+    add("literal-list-oob", "def f(a: Qint[2]) -> Qint[4]:\n\treturn [3, 9, 1][5] + a")
+    add("index-by-subscript", "def f(a: Qint[2]) -> Qint[4]:\n\tc = (3, 9)\n\treturn c[a[0]]")
+    add("index-by-subscript-arg", "def f(t: Qlist[bool, 2], a: Qint[2]) -> bool:\n\treturn t[a[0]]")
+    add("index-expr", "def f(t: Qlist[bool, 3], a: Qint[2]) -> bool:\n\treturn t[a + 1]")
+    add("const-name-index", "def f(t: Qlist[bool, 3]) -> bool:\n\ti = 1\n\treturn t[i]")
+    add("const-name-index-tuple", "def f(t: Qlist[bool, 3]) -> bool:\n\ti = (1, 2)\n\treturn t[i]")
+    add("const-bool-index", "def f(t: Qlist[bool, 3]) -> bool:\n\ti = True\n\treturn t[i]")
+    add("loopvar-after-loop-index", "def f(t: Qlist[bool, 3]) -> bool:\n\tfor i in range(2):\n\t\tpass\n\treturn t[i]")
+    add("typing-tuple-name", "def f(a: bool) -> bool:\n\tb = Tuple[a]\n\treturn a")
+    # builtins: arities
+    for fn in ("len", "sum", "min", "max", "any", "all", "ord", "chr", "int", "float", "abs", "print", "foo"):
+        for k in range(0, 5):
+            args = ", ".join("abcd"[:k])
+            add(f"call:{fn}:{k}", f"def f(a: Qint[2], b: Qint[2], c: Qint[2], d: Qint[2]) -> Qint[2]:\n\treturn {fn}({args})")
+    for fn in ("len", "sum", "min", "max", "any", "all"):
+        et, rt = ("bool", "bool") if fn in ("any", "all") else ("Qint[2]", "Qint[4]")
+        add(f"unroll-tuple-lit:{fn}", f"def f(a: {et}, b: {et}, c: {et}) -> {rt}:\n\treturn {fn}((a, b, c))")
+        add(f"unroll-list-lit:{fn}", f"def f(a: {et}, b: {et}) -> {rt}:\n\treturn {fn}([a, b])")
+        add(f"unroll-name:{fn}", f"def f(t: Qlist[{et}, 3]) -> {rt}:\n\treturn {fn}(t)")
+        add(f"unroll-name-tuple:{fn}", f"def f(t: Tuple[{et}, {et}]) -> {rt}:\n\treturn {fn}(t)")
+        add(f"unroll-local:{fn}", f"def f(a: {et}, b: {et}) -> {rt}:\n\tu = (a, b, a)\n\treturn {fn}(u)")
+        add(f"unroll-copy:{fn}", f"def f(t: Qlist[{et}, 2]) -> {rt}:\n\tu = t\n\treturn {fn}(u)")
+        add(f"unroll-scalar:{fn}", f"def f(a: {et}) -> {rt}:\n\treturn {fn}(a)")
+        add(f"unroll-empty:{fn}", f"def f(a: {et}) -> {rt}:\n\treturn {fn}(())")
+        add(f"unroll-var-row:{fn}", f"def f(t: Qmatrix[{et}, 2, 3], i: Qint[2]) -> {rt}:\n\treturn {fn}(t[i])")
+    # nested builtins
+    add("nested-max-min", "def f(a: Qint[2], b: Qint[2], c: Qint[2]) -> Qint[2]:\n\treturn max(min(a, b), min(b, c), c)")
+    add("nested-sum-len", "def f(t: Qlist[Qint[2], 3]) -> Qint[4]:\n\treturn sum(t) + len(t) + max(t)")
+    add("nested-any-all", "def f(t: Qmatrix[bool, 2, 3]) -> bool:\n\treturn any([all(t[0]), all(t[1])])")
+    add("nested-index-call", "def f(t: Qlist[Qint[2], 3], i: Qint[2]) -> Qint[2]:\n\treturn max(t[i], t[0])")
+    add("nested-ord-chr", "def f(c: Qchar, a: Qint[8]) -> bool:\n\treturn ord(chr(a)) == ord(c)")
+    add("nested-int", "def f(a: Qint[2], b: Qint[2]) -> Qint[2]:\n\treturn int(max(a, b)) + int(a)")
+    add("call-in-if-for", "def f(t: Qlist[Qint[2], 3], c: bool) -> Qint[4]:\n\ts = 0\n\tfor i in range(len(t)):\n\t\tif c:\n\t\t\ts = s + max(t)\n\treturn s")
+    add("len-range", "def f(t: Qlist[Qint[2], 3]) -> Qint[4]:\n\ts = 0\n\tfor i in range(len(t)):\n\t\ts += t[i]\n\treturn s")
+    add("range-expr", "def f(a: Qint[2]) -> Qint[2]:\n\tr = range(3)\n\treturn a")
+    # constant folding of builtins
+    add("fold-calls", "def f(a: Qint[4]) -> Qint[8]:\n\treturn a + len((1, 2, 3)) + max(1, 2) + min([3, 1, 2]) + sum([1, 2, 3]) + abs(-3) + max(2, True)")
+    add("fold-calls-bool", "def f(a: bool) -> bool:\n\treturn (a and any([True, False])) or all([True, 1, 2]) or all(())")
+    add("fold-chr-ord", "def f(c: Qchar) -> bool:\n\treturn c == chr(97) or ord(c) == ord('b')")
+    add("fold-len-scalar", "def f(a: Qint[2]) -> Qint[2]:\n\treturn a + len(3)")
+    add("fold-min-empty", "def f(a: Qint[2]) -> Qint[2]:\n\treturn a + min([])")
+    add("fold-mixed-not-const", "def f(a: Qint[2]) -> Qint[2]:\n\treturn max(1, a, 3) + min([1, a])")
+    add("fold-then-unroll", "def f(a: Qint[2]) -> Qint[4]:\n\treturn sum((a, 1 + 1, 2 * 3))")
+    # annotations
+    add("ann-qintN", "def f(a: Qint2, b: Qint4) -> Qint4:\n\treturn a + b")
+    add("ann-qint-bad", "def f(a: Qintx) -> bool:\n\treturn True")
+    add("ann-qlist-of-qlist", "def f(t: Qlist[Qlist[bool, 3], 2], i: Qint[2], j: Qint[2]) -> bool:\n\treturn t[i][j]")
+    add("ann-tuple-of-qlist", "def f(t: Tuple[Qlist[bool, 3], Qlist[bool, 3]], i: Qint[2], j: Qint[2]) -> bool:\n\treturn t[i][j]")
+    add("ann-qlist-of-tuple", "def f(t: Qlist[Tuple[bool, bool, bool], 2], i: Qint[2], j: Qint[2]) -> bool:\n\treturn t[i][j]")
+    add("ann-qmatrix-for", "def f(t: Qmatrix[bool, 2, 3]) -> Qint[2]:\n\tc = 0\n\tfor r in t:\n\t\tc = c + 1 if any(r) else c\n\treturn c")
+    add("pow-forms", "def f(a: Qint[2]) -> Qint[8]:\n\treturn a ** 3 + (a + 1) ** 2 + a ** 0 + a ** 1")
+    return out
+
+
+EXPR_FORMS = _expr_forms()
